@@ -132,11 +132,16 @@ def make_parser(case, T, mode, dcf=None):
     opt = ".".join(case["key"])
     if case["hyphen"]:
         opt = opt.replace("_", "-")
-    p.add_argument("--" + opt, type=T)
+    p.add_argument("--" + opt, type=T, **({"enable_path": True} if case.get("enable_path") else {}))
+    if case.get("mixed"):
+        p.add_argument("--%s.zz.deep" % case["key"][0], type=int)
     return p
 
 
-def outcome(fn, dest):
+SIBKEY = [None]   # a second declared key two levels below the setting's root branch (cases with a mixed-spelling document)
+
+
+def outcome(fn, dest, sib_expect=None):
     try:
         with contextlib.redirect_stderr(io.StringIO()), contextlib.redirect_stdout(io.StringIO()):
             cfg = fn()
@@ -144,9 +149,11 @@ def outcome(fn, dest):
             val = cfg[dest]
         except KeyError:
             return ["crash", "KeyMissing"]
-        rest = {k for k in cfg.keys() if k not in (dest, "cfg", "other", "__default_config__")}
+        rest = {k for k in cfg.keys() if k not in (dest, "cfg", "other", "__default_config__", SIBKEY[0])}
         if rest or cfg["other"] != 3:
             return ["crash", "OtherKeysTouched"]
+        if SIBKEY[0] and cfg.get(SIBKEY[0]) != sib_expect:
+            return ["crash", "SiblingKeyIs%r" % (cfg.get(SIBKEY[0]),)]
         return ["ok", tag(val)]
     except ArgumentError:
         return ["rejected"]
@@ -227,6 +234,7 @@ def dig(obj, key):
 
 
 def run_case(case, tmp):
+    SIBKEY[0] = case["key"][0] + ".zz.deep" if case.get("mixed") else None
     for f in typing._cleanups:   # typing caches List[Union[int, str]] == List[Union[str, int]]: member order matters here
         f()
     T = build_type(case["ty"])
@@ -269,6 +277,11 @@ def run_case(case, tmp):
             if full and not any(t.startswith("-") for _, t in items):
                 chan[m + "argv_nested_sp"] = outcome(lambda: p.parse_args([x for k, t in items for x in ("--%s.%s" % (dest, k), t)]), dest)
         chan[m + "object_nested"] = outcome(lambda: p.parse_object(json.loads(json.dumps(nested))), dest)
+        if case.get("mixed"):
+            # one mapping, two spellings under the same branch: the setting as a nested mapping first, then a dotted key two
+            # levels below the branch that opens a missing intermediate one
+            mixed_obj = json.loads(docs["json_mixed"])
+            chan[m + "object_mixed"] = outcome(lambda: p.parse_object(mixed_obj), dest, sib_expect=4)
         chan[m + "env"] = outcome(lambda: p.parse_env({envvar: text}), dest)
         if full:
             chan[m + "object_dotted"] = outcome(lambda: p.parse_object({dest: json.loads(json.dumps(val))}), dest)
@@ -280,14 +293,15 @@ def run_case(case, tmp):
         for name, doc in docs.items():
             if mode == "json" and not name.startswith("json"):
                 continue   # a YAML block document is not a setting one can hand to a json-mode parser
-            chan[m + "string:" + name] = outcome(lambda: p.parse_string(doc), dest)
-            chan[m + "cfgfile:" + name] = outcome(lambda: p.parse_args(["--cfg", files[name]]), dest)
+            sx = 4 if name == "json_mixed" else None
+            chan[m + "string:" + name] = outcome(lambda: p.parse_string(doc), dest, sib_expect=sx)
+            chan[m + "cfgfile:" + name] = outcome(lambda: p.parse_args(["--cfg", files[name]]), dest, sib_expect=sx)
             if full:
-                chan[m + "path:" + name] = outcome(lambda: p.parse_path(files[name]), dest)
-                chan[m + "cfgstr:" + name] = outcome(lambda: p.parse_args(["--cfg=" + doc]), dest)
-                chan[m + "cfgenv:" + name] = outcome(lambda: p.parse_env({cfgvar: doc}), dest)
+                chan[m + "path:" + name] = outcome(lambda: p.parse_path(files[name]), dest, sib_expect=sx)
+                chan[m + "cfgstr:" + name] = outcome(lambda: p.parse_args(["--cfg=" + doc]), dest, sib_expect=sx)
+                chan[m + "cfgenv:" + name] = outcome(lambda: p.parse_env({cfgvar: doc}), dest, sib_expect=sx)
                 pd = make_parser(case, T, mode, dcf=[files[name]])
-                chan[m + "default_config:" + name] = outcome(lambda: pd.parse_args([]), dest)
+                chan[m + "default_config:" + name] = outcome(lambda: pd.parse_args([]), dest, sib_expect=sx)
             ans = load_answer(ld.loaders[mode], doc)
             if ans[0] == "val":
                 try:
@@ -529,6 +543,12 @@ def untag_loaded(t):
 def main():
     payload = json.load(sys.stdin)
     tmp = tempfile.mkdtemp(prefix="jv_c05_")
+    # the working directory holds readable files whose names occur as string settings (an option declared with
+    # enable_path=True takes a whole-value text that names a file for its content — an entry of it must not)
+    for name, content in (("notes.txt", "remember the milk\n"), ("data.yaml", "a: 1\n")):
+        with open(os.path.join(tmp, name), "w") as f:
+            f.write(content)
+    os.chdir(tmp)
     out = []
     try:
         for case in payload["cases"]:
